@@ -490,6 +490,10 @@ def install_world(schd, world, scn, rng):
         todo, world.pending = world.pending, []
         for due, ctx, cb, cba, cb255 in todo:
             key = ctx.cmd_key if isinstance(ctx.cmd_key, str) else str(ctx.cmd_key[0])
+            if key == "jobs-submit" and world.tick < due + scn.get("submit_delay", 0):
+                # the job-submission command is still running: its tasks stay 'preparing' meanwhile
+                world.pending.append((due, ctx, cb, cba, cb255))
+                continue
             if key == "jobs-submit":
                 out = ""
                 for it in cba[0]:
@@ -502,7 +506,7 @@ def install_world(schd, world, scn, rng):
                     ev("submit_result", id=[p, n], submit_num=sn, ok=ok)
                     if ok:
                         seq = ["started"] + [f"msg-{c}" for c in plan["customs"]] + [plan["result"]]
-                        t = world.tick
+                        t = world.tick + int(plan.get("delay", scn.get("slow", {}).get(n, 0)))
                         dis = scn.get("disorder", 0.0)
                         sched = []
                         for m in seq:
@@ -904,6 +908,10 @@ def run_many(scenarios: list, home: Path) -> list:
         out = []
         for s in scenarios:
             r = await run_scenario(s, home)
+            for _ in range(4):
+                # environmental: the scheduler's server thread missed its 10 s start-up barrier (machine overloaded)
+                if r["meta"].get("error") and "BrokenBarrierError" in r["meta"]["error"]:
+                    r = await run_scenario(s, home)
             if s.get("baseline"):
                 # the same scenario without its restart ops: the uninterrupted run
                 s2 = dict(s)
